@@ -345,6 +345,7 @@ func (s *Sim) queryQuiescence() {
 			if !still {
 				continue
 			}
+			s.stat("oracle.C13.a_must", 1)
 			if got[q] == 0 && !s.gwStopped {
 				s.violate("C13", "a", "missing-query-request", "query event %s on %s: clients hold query %q but no query request was sent for it", qe.Subj, qe.Name, q)
 			}
@@ -530,10 +531,18 @@ func (s *Sim) refetchClass(r *Req) int8 {
 	// whatever made the gateway send r
 	fuzzy, fuzzyRaw := false, false
 	// refEnd: the latest moment at which the entry could be re-fetched
-	var refEnd uint64
+	// rawEnd: the same for the entry under r's own (raw) query while it is loaded
+	var refEnd, rawEnd uint64
 	for _, e := range evs {
 		if e.q != r && (loaded || len(initial) > 0) {
 			refEnd = e.seq
+		}
+		if e.q != r {
+			for q := range initial {
+				if q.Query == r.Query {
+					rawEnd = e.seq
+				}
+			}
 		}
 		if e.del {
 			if !s.processed(r.Name, e.cut) {
@@ -589,8 +598,26 @@ func (s *Sim) refetchClass(r *Req) int8 {
 	if early[r] {
 		return 3
 	}
+	throttled := func(end uint64) bool {
+		// a re-fetch waits in the reset throttle: it may have been decided while
+		// the entry was there
+		if s.Cfg.Gw.ResetThrottle <= 0 {
+			return false
+		}
+		for _, rec := range s.W.Resets {
+			if !rec.Dlv || rec.DlvSeq >= end {
+				continue
+			}
+			for _, p := range rec.Resources {
+				if matchPattern(p, r.Name) {
+					return true
+				}
+			}
+		}
+		return false
+	}
 	if r.Query != vq {
-		if fuzzyRaw {
+		if fuzzyRaw || throttled(rawEnd) {
 			return 1
 		}
 		return 0
@@ -599,19 +626,8 @@ func (s *Sim) refetchClass(r *Req) int8 {
 		return 1
 	}
 	if !refetch[r] {
-		if s.Cfg.Gw.ResetThrottle > 0 && r.Query == vq {
-			// a re-fetch waits in the reset throttle: it may have been decided while
-			// the entry was there
-			for _, rec := range s.W.Resets {
-				if !rec.Dlv || rec.DlvSeq >= refEnd {
-					continue
-				}
-				for _, p := range rec.Resources {
-					if matchPattern(p, r.Name) {
-						return 1
-					}
-				}
-			}
+		if throttled(refEnd) {
+			return 1
 		}
 		return 0
 	}
@@ -630,21 +646,28 @@ func (s *Sim) refetchClass(r *Req) int8 {
 func (s *Sim) loadedAnew(v *Variant) bool {
 	var after uint64
 	for _, e := range v.Stream {
-		if e.Kind == "delete" && e.Derived && e.Via != nil && e.Via.Delivered {
+		if e.Kind == "delete" && e.Derived && e.Via != nil && e.Via.Delivered && e.Via.DlvSeq > after {
 			after = e.Via.DlvSeq
+		}
+	}
+	s.mu.Lock()
+	defer s.mu.Unlock()
+	res := s.W.Res[v.Name]
+	same := func(q *Req) bool {
+		n, ok := res.normalise(q.Query)
+		return q.Type == "get" && q.Name == v.Name && ok && n == v.Query
+	}
+	for _, q := range s.tr.reqs {
+		if same(q) && q.NotFound && q.Delivered && q.DlvSeq > after {
+			after = q.DlvSeq
 		}
 	}
 	if after == 0 {
 		return false
 	}
-	s.mu.Lock()
-	defer s.mu.Unlock()
-	res := s.W.Res[v.Name]
 	for _, q := range s.tr.reqs {
-		if q.Type == "get" && q.Name == v.Name && q.Seq > after && q.GotData && q.Delivered {
-			if n, ok := res.normalise(q.Query); ok && n == v.Query {
-				return true
-			}
+		if same(q) && q.Seq > after && q.GotData && q.Delivered {
+			return true
 		}
 	}
 	return false
@@ -754,6 +777,7 @@ func (s *Sim) resetQuiescence() {
 	s.mu.Unlock()
 	for k, rs := range refetch {
 		s.stat("oracle.C12.a", 1)
+		s.stat("oracle.C12.a_refetches", len(rs))
 		res := s.W.Res[k.name]
 		if res == nil {
 			continue
